@@ -1853,9 +1853,9 @@ class SBytes:
             if c.op not in ("cat", "const"):
                 return hash(("sbytes", c.id, len(self.items)))
         symn = [i.n for i in self.items if isinstance(i, SI) and i.n.op != "const"]
-        if len(symn) >= 3 and CTX is not None and _many_values(symn):
+        if len(symn) >= 2 and CTX is not None and _many_values(symn):
             # too many candidate values to enumerate (see SI.__hash__): all such strings hash alike and are told apart by ==
-            note = ("a byte string with three or more symbolic bytes was hashed (set/dict key): compared by equality with other "
+            note = ("a byte string with two or more symbolic bytes was hashed (set/dict key): compared by equality with other "
                     "symbolic keys only; lookups against concrete keys of the same container are not modelled")
             if note not in CTX.inconclusive:
                 CTX.inconclusive.append(note)
